@@ -45,15 +45,15 @@ CHECKS = {
          "property-based differential testing (proptest) against a reference digest", "DESIGN.md §5 C13"),
  "C15": ("pv-harness", "exploration",
          "Generated piece lists (0..8 pieces, 0..4 fragments, lengths 0..600): output equals the reference PAE, parses back to the same list (injectivity), streaming writers see the same bytes, boundary shifts always change the output.",
-         "Back-end digest/MAC adapters are covered through C03's bit-exact comparison.",
+         "The back ends' private digest/MAC/signature writer adapters are driven through tokens whose pieces have every length 0..700, with and without a payload-encoding suffix, and compared with the reference MAC / signature over the reference PAE.",
          "property-based testing (proptest): reference encoder + inverse parser", "DESIGN.md §5 C15"),
  "C09": ("pv-harness", "exploration",
-         "Exhaustive enumeration of the final base64 block (all ASCII strings of length <= 3, all length-4 strings over alphabet + hostile symbols, after 0/1/2 full blocks) and of every byte-sequence length 0..300, differentially against a strict table-driven reference codec; plus proptest over every FromStr/Display/serde triple of every back end with edit scripts and arbitrary strings against the strict grammar, with re-serialisation and serde-equivalence oracles.",
+         "Exhaustive enumeration of the final base64 block (all ASCII strings of length <= 3, all length-4 strings over alphabet + hostile symbols, after 0/1/2 full blocks) and of every byte-sequence length 0..1200 plus the lengths around every multiple of 1024 up to 128 KiB, differentially against a strict table-driven reference codec; plus proptest over every FromStr/Display/serde triple of every back end with edit scripts and arbitrary strings against the strict grammar, with re-serialisation and serde-equivalence oracles.",
          "The sub-space of final blocks is enumerated completely; longer strings and the typed parsers are sampled.",
          "exhaustive enumeration + property-based differential testing (proptest) against a strict reference decoder/grammar", "DESIGN.md §5 C09"),
  "C10": ("pv-harness", "exploration",
          "Complete ordered-pair matrix of (back end, kind) parsers over library-produced strings of every kind with the expectation computed from the specification's header table; header rewriting of authenticated blobs must fail to unwrap.",
-         "Source strings per kind are sampled (5 quick / 50 thorough per back end); the parser matrix itself is complete.",
+         "Source strings per kind are sampled (5 quick / 50 thorough per back end); the parser matrix itself is complete (24 parser types per back end incl. the PKE key-id and key-text instantiations).",
          "enumerated cross-acceptance matrix over generated values, header-table oracle", "DESIGN.md §5 C10"),
  "C11": ("pv-harness", "exploration",
          "Generated claims on and 1 ns beside every time boundary x generated validator expression trees (all combinators, depth <= 3) against an independent i128-nanosecond evaluator; end to end on every back end: unseal releases the claims iff the evaluator accepts, else ClaimsError.",
@@ -73,15 +73,15 @@ CHECKS = {
          "stateful history checking + exhaustive RNG fault injection through a custom getrandom backend", "DESIGN.md §5 C16, §3.4"),
  "C17": ("pv-harness", "exploration",
          "Generated thread plans (1..16 real threads, mixed succeeding/failing operations, clone/drop overlap) against a sequential model, in child processes so crashes are observed; probes after every plan show failed operations did not alter the shared keys.",
-         "Interleavings are sampled by the OS scheduler (stress, not enumeration); C libraries are not race-instrumented.",
-         "model-based stress testing of generated concurrent plans (proptest) with a sequential oracle", "DESIGN.md §5 C17"),
+         "Interleavings are sampled by the OS scheduler (stress, not enumeration). The thorough tier re-runs the plans in a ThreadSanitizer build (rustc -Zsanitizer=thread, -Zbuild-std): a race report with a frame in library code is a violation; aws-lc / libsodium C code is not instrumented.",
+         "model-based stress testing of generated concurrent plans (proptest) with a sequential oracle; ThreadSanitizer build of the same plans in the thorough tier", "DESIGN.md §5 C17"),
  "C18": ("progs", "exploration",
          "A generated catalogue (about 2500 programs: key crate x token crate x purpose x key kind x operation, printing/serialising probes, field access, coercions) with a type model predicting compile/reject, decided by rustc: every predicted-reject program must fail on its marked line, every well-typed twin must compile. The catalogue is enumerated completely.",
          "rustc is the ground truth; programs take the misused values as function parameters.",
          "generated-program testing: enumerated misuse catalogue with a type-model oracle, compiled with cargo check", "DESIGN.md §5 C18"),
  "C19": ("progs", "exploration",
          "Every distinct closure of each crate's feature flags is built with cargo check (exhaustive); generated probe crates on reduced builds replay full-build fixtures through every available operation and their output is accepted by the full build and the reference model (seeded closures quick, all closures thorough).",
-         "cargo check decides 'builds'; the behaviour part samples closures in the quick tier.",
+         "cargo check decides 'builds'; the behaviour part samples closures in the quick tier. paseto-json with and without `claims` is compared differentially on a generated JSON corpus; paseto-core with/without `serde` is compiled only (it has no operation of its own that both builds share beyond what every back-end probe already exercises).",
          "configuration enumeration + generated probe programs, differential against the full build and the reference model", "DESIGN.md §5 C19"),
 }
 
